@@ -491,7 +491,13 @@ def joint_assessment(ctx, repo):
 
 
 def _only_seen_test(fd, test, derived):
-    """the test mentions a flag-derived container only through membership of the spouse (`spouse in seen_map`)"""
+    """the test mentions a flag-derived container only through membership of the spouse (`spouse in seen_map`),
+    or asks whether a look-up of the spouse found an entry (`entry is not None` with entry = seen_map.get(spouse))"""
+    if isinstance(test, ast.Compare) and len(test.ops) == 1 and isinstance(test.ops[0], (ast.Is, ast.IsNot)) \
+            and isinstance(test.comparators[0], ast.Constant) and test.comparators[0].value is None and isinstance(test.left, ast.Name):
+        defs = [a.value for a in ast.walk(fd) if isinstance(a, ast.Assign) and len(a.targets) == 1 and isinstance(a.targets[0], ast.Name) and a.targets[0].id == test.left.id]
+        if defs and all(any(isinstance(c, ast.Call) and isinstance(c.func, ast.Attribute) and c.func.attr == "get" for c in ast.walk(d)) for d in defs):
+            return True
     for x in ast.walk(test):
         if isinstance(x, ast.Name) and x.id in derived:
             ok = False
